@@ -631,11 +631,11 @@ func init() {
 		tt := in.prog.ImportedPackage("time").Type("Timer").Type()
 		cell := new(Value)
 		*cell = zero(tt)
-		*structFieldByName(cell, "C") = &Chan{id: in.sched.nextChanID(), env: "ticker"}
+		*structFieldByName(cell, "C") = &Chan{id: in.sched.nextChanID(), env: "timer"}
 		return cell
 	})
 	reg("time.After", func(in *Interp, fr *frame, args []Value) Value {
-		return &Chan{id: in.sched.nextChanID(), env: "ticker"}
+		return &Chan{id: in.sched.nextChanID(), env: "timer"}
 	})
 	reg("time.Tick", intrinsics["time.After"])
 	reg("(*time.Ticker).Stop", func(in *Interp, fr *frame, args []Value) Value { return nil })
